@@ -7,6 +7,7 @@ process exit are observed by the harness, not modelled.)
 -/
 import CnfgenModel.Cli.TableChecks
 import CnfgenModel.Cli.Validate
+import CnfgenModel.Cli.Msg
 namespace Cnfgen.C18
 open Cnfgen Cnfgen.Cli Cnfgen.Gen
 
@@ -55,6 +56,23 @@ theorem exit_status (o : Outcome) : exitStatus o = 1 ↔ ∃ e, o = .escaped e :
 
 /-- T-C18.3 the comment markers used to shield error messages are those of the three output formats -/
 theorem comment_markers : commentChar = [("dimacs", "c "), ("latex", "% "), ("opb", "* ")] := by decide
+
+/-- T-C18.3b every line of a reported command-line error — the `ERROR:` lines, the blank separators, the usage text
+and the closing hint alike — is printed behind the comment marker of the output format, so the error stream
+of a failed run is itself a sequence of comment lines of that format -/
+theorem error_report_is_shielded (fmt : String) (message : List String) (usage : Option (List String)) (prog : String) :
+    ∀ l ∈ errorMsgLines (prefixOf fmt) (cliErrorLines message usage prog), ∃ rest, l = prefixOf fmt ++ rest :=
+  errorMsgLines_prefixed _ _
+
+theorem prefix_table : prefixOf "dimacs" = "c " ∧ prefixOf "opb" = "* " ∧ prefixOf "latex" = "% " := by decide
+
+/-- the report is never empty and starts with the `ERROR:` lines of the message -/
+theorem error_report_shape (pre : String) (message : List String) (usage : Option (List String)) (prog : String) :
+    (errorMsgLines pre (cliErrorLines message usage prog)).take message.length = message.map (fun m => pre ++ "ERROR: " ++ m) ∧
+    message.length + 2 ≤ (errorMsgLines pre (cliErrorLines message usage prog)).length := by
+  constructor
+  · simp [errorMsgLines, cliErrorLines, List.map_append, List.take_append_of_le_length, String.append_assoc]
+  · cases usage <;> simp [errorMsgLines, cliErrorLines] <;> omega
 
 example : validate "positive_even_int" " +1_0 " = some 10 := by decide
 example : validate "positive_int" "0" = none := by decide
